@@ -258,6 +258,34 @@ def nonzero(a):
     return tuple(i.view(SymArray) for i in _np.nonzero(a.view(_np.ndarray)))
 
 
+@override("flatnonzero")
+def flatnonzero(a):
+    return nonzero(_A(a).ravel())[0]
+
+
+@override("histogram")
+def histogram(a, bins=10, range=None, density=None, weights=None):
+    """np.histogram for explicit, increasing bin edges: bin k is [e_k, e_k+1), the last bin is closed on the right"""
+    if weights is not None or density or _np.ndim(bins) != 1:
+        if not is_sym(a) and not is_sym(bins):
+            return _np.histogram(deep_strip(a), bins=deep_strip(bins), range=range, density=density, weights=weights)
+        raise HarnessError("np.histogram is modelled for explicit bin edges without weights/density only")
+    edges = list(_A(bins).view(_np.ndarray).ravel())
+    vals = list(_A(a).view(_np.ndarray).ravel())
+    if not is_sym(edges) and not is_sym(vals):
+        h_, e_ = _np.histogram(_np.asarray(vals, dtype=float), bins=_np.asarray(edges, dtype=float))
+        return h_.view(SymArray), e_.view(SymArray)
+    nb = len(edges) - 1
+    counts = _np.empty(nb, dtype=object)
+    for k in _np.arange(nb):
+        c = 0
+        for v in vals:
+            inside = sym.And(lift(v) >= edges[k], (lift(v) <= edges[k + 1]) if k == nb - 1 else (lift(v) < edges[k + 1]))
+            c = c + If(inside, 1, 0)
+        counts[k] = c
+    return counts.view(SymArray), _A(bins)
+
+
 def _reduce(uf, a, axis=None, keepdims=False, **kw):
     a = _A(a)
     if a.dtype != object:
